@@ -855,7 +855,16 @@ def _range(ex, fn, args, kw, node):
         cs = [a.concrete() for a in args]
         if all(c is not None for c in cs):
             return VPy(range(*cs))
-        ex.limit('range with symbolic step', node)
+        if cs[2] == 1:
+            lo, hi = ex.flat(args[0], 'int'), ex.flat(args[1], 'int')
+            n = z3.If(hi > lo, hi - lo, z3.IntVal(0))
+            return VIter(n, lambda i: VInt(lo + i))
+        if cs[2] == -1:
+            # range(a, b, -1): a, a-1, ..., b+1
+            lo, hi = ex.flat(args[0], 'int'), ex.flat(args[1], 'int')
+            n = z3.If(lo > hi, lo - hi, z3.IntVal(0))
+            return VIter(n, lambda i: VInt(lo - i))
+        ex.limit('range with symbolic bounds and a step other than 1 or -1', node)
     cl, ch = z3.simplify(lo), z3.simplify(hi)
     if z3.is_int_value(cl) and z3.is_int_value(ch) and ch.as_long() - cl.as_long() <= 64:
         return VPy(range(cl.as_long(), ch.as_long()))
